@@ -7,8 +7,10 @@ from ..ref.opsem import message
 from .c02 import sign, _pk
 
 INV = ['TrueIffQuorum', 'FewerNeverPass', 'KeysUsedOnce', 'TypeOK']
-FIELDS = {'sigfield1': b'pay', 'sigfield2': b'bob', 'sigfield3': b'now'}
-ALLOWED = 1          # flag bit 0 is permitted, bit 1 is not
+FIELDS = {f'sigfield{i}': b'field-%d;' % i for i in range(1, 9)}
+# the flag classes are concretised with a single-bit allowed-flags operand 1 << bit: permitted flag = that bit, non-permitted
+# flag = the next bit (all 8 bits in MC, a random one per recorded scenario); signatures are made with the reference signer
+# over the reference message, independently of the VM's own GET_MESSAGE / SIGN
 
 
 def _impl():
@@ -23,22 +25,24 @@ def seed_of(k: int) -> bytes:
     return bytes([k]) * 32
 
 
-def sig_bytes(s: dict) -> bytes:
+def sig_bytes(s: dict, bit: int = 0) -> bytes:
     seed = seed_of(s['signer'])
     if s['cls'] == 'f0':
         return sign(seed, message(FIELDS, 0))
     if s['cls'] == 'perm':
-        return sign(seed, message(FIELDS, 1)) + b'\x01'
+        f = 1 << bit
+        return sign(seed, message(FIELDS, f)) + bytes([f])
     if s['cls'] == 'nonperm':
-        return sign(seed, message(FIELDS, 2)) + b'\x02'
+        f = 1 << ((bit + 1) % 8)
+        return sign(seed, message(FIELDS, f)) + bytes([f])
     return sign(seed, message(FIELDS, 0))[:63]
 
 
-def run_case(k: dict, verify_form: bool = False):
+def run_case(k: dict, verify_form: bool = False, bit: int = 0):
     F, _ = _impl()
     # the instruction takes keys first (top of stack first), then signatures
-    script = b''.join(push(sig_bytes(s)) for s in reversed(k['sigs'])) + b''.join(push(_pk(seed_of(x))) for x in reversed(k['keys']))
-    script += op('CHECK_MULTISIG_VERIFY' if verify_form else 'CHECK_MULTISIG', b1(ALLOWED), b1(k['m']), b1(k['n']))
+    script = b''.join(push(sig_bytes(s, bit)) for s in reversed(k['sigs'])) + b''.join(push(_pk(seed_of(x))) for x in reversed(k['keys']))
+    script += op('CHECK_MULTISIG_VERIFY' if verify_form else 'CHECK_MULTISIG', b1(1 << bit), b1(k['m']), b1(k['n']))
     try:
         _, stack, _ = F.run_script(script, dict(FIELDS))
     except BaseException as e:
@@ -54,11 +58,15 @@ def run_case(k: dict, verify_form: bool = False):
 
 
 def run_mc(k):
-    got, d = run_case(k)
-    if got == k['expect']:       # the _VERIFY form must agree: passes iff true
-        g2, _ = run_case(k, verify_form=True)
+    flagged = any(s['cls'] in ('perm', 'nonperm') for s in k['sigs'])
+    got = d = None
+    for bit in (range(8) if flagged else (0,)):
+        got, d = run_case(k, bit=bit)
+        if got != k['expect']:
+            return got, f'{d}; allowed flags x{1 << bit:02x}'
+        g2, _ = run_case(k, verify_form=True, bit=bit)      # the _VERIFY form must agree: passes iff true
         if (g2 == 'true') != (got == 'true'):
-            return f'verify-form:{g2}', d
+            return f'verify-form:{g2}', f'{d}; allowed flags x{1 << bit:02x}'
     return got, d
 
 
@@ -82,7 +90,7 @@ def record_random(args):
             if r.random() < 0.3:
                 sigs[r.randrange(m)] = dict(sigs[r.randrange(m)])
         k = {'n': n, 'm': m, 'keys': keys, 'sigs': sigs, 'tid': 0}
-        got, _ = run_case(k)
+        got, _ = run_case(k, bit=r.randrange(8))
         if r.random() < 0.2 and all(s['cls'] == 'f0' for s in sigs) and m:
             # the builders: make_multisig_lock + joined make_single_sig_witness outputs
             lock = T.make_multisig_lock([_pk(seed_of(x)) for x in keys], m)
